@@ -54,6 +54,7 @@ type c03Params struct {
 	flat        int  // flat run: that many extra Sends at the default schedule, no choices
 	ackWhatever bool
 	group       bool // send through GroupTunnel.Send (the frame is built by the group layer)
+	conf        bool // the gateway tunnels an L_Data.con for every telegram it has acknowledged; the first transmission of every later request is lost
 	everyPair   bool // the first transmission is answered with status OK for every (channel, number) in turn
 	allStatus   bool // the first request is acknowledged with an error status, every one of the 255 in turn
 }
@@ -84,6 +85,8 @@ func c03Run(p c03Params) func() {
 		firstTx := map[string]mc.Duration{}
 		menu := p.menu
 		errStatusSent := false
+		txs := map[string]int{}
+		confSeq := uint8(0)
 		gw.OnTunnelReq = func(req *knxnet.TunnelReq, s *fakesock.Sent) {
 			if p.tcp {
 				return
@@ -93,6 +96,28 @@ func c03Run(p c03Params) func() {
 				firstTx[key] = s.T
 			}
 			ch, seq := req.Channel, req.SeqNumber
+			if p.conf {
+				// a gateway reports what became of a telegram with a confirmation frame of its own (an
+				// inbound tunnelling request carrying L_Data.con): that is a telegram for the
+				// application, not an acknowledgement of anything
+				txs[key]++
+				if len(txs) > 1 && txs[key] == 1 {
+					return // lost on the way
+				}
+				c03Deliver(sock, ch, seq, 0)
+				if txs[key] == 1 || len(txs) > 1 {
+					var ld cemi.LData
+					switch m := req.Payload.(type) {
+					case *cemi.LDataReq:
+						ld = m.LData
+					case *cemi.LDataInd:
+						ld = m.LData
+					}
+					sock.Deliver(&knxnet.TunnelReq{Channel: ch, SeqNumber: confSeq, Payload: &cemi.LDataCon{LData: ld}})
+					confSeq++
+				}
+				return
+			}
 			if p.everyPair && !errStatusSent {
 				// "every status / channel / sequence-number combination": all 65536 (channel, number)
 				// pairs with status OK; only (connection's channel, request's number) may end the Send
@@ -615,6 +640,8 @@ func init() {
 	register("both", &h.Scenario{Name: "C03-S2-group-tunnel-2senders-loss", Prop: "C03", P: 2, F: 2, D: 2, Run: c03Run(sg), Check: c03Oracle(sg)})
 	as := c03Params{R: 100, T: 350, senders: 1, perSender: 2, allStatus: true}
 	register("both", &h.Scenario{Name: "C03-every-error-status-in-the-acknowledgement", Prop: "C03", P: 0, F: 0, D: -1, Run: c03Run(as), Check: c03Oracle(as)})
+	cf := c03Params{R: 100, T: 350, senders: 1, perSender: 3, conf: true, pauses: true}
+	register("both", &h.Scenario{Name: "C03-confirmation-frames-between-sends", Prop: "C03", P: 1, F: 0, D: 1, Run: c03Run(cf), Check: c03Oracle(cf)})
 	ep := c03Params{R: 100, T: 350, senders: 1, perSender: 2, everyPair: true}
 	register("both", &h.Scenario{Name: "C03-every-channel-and-number-in-the-acknowledgement", Prop: "C03", P: 0, F: 0, D: -1, Run: c03Run(ep), Check: c03Oracle(ep)})
 	s5 := c03Params{R: 100, T: 350, senders: 3, perSender: 2, tcp: true}
